@@ -15,6 +15,7 @@ import (
 	"strings"
 	"sync"
 	"sync/atomic"
+	"syscall"
 
 	oci "github.com/opencontainers/runtime-spec/specs-go"
 	"tags.cncf.io/container-device-interface/pkg/cdi"
@@ -324,6 +325,63 @@ func cacheState(c *cdi.Cache, dirs []string) (string, map[string]any) {
 func checkC11(c *Ctx) {
 	c.Rule = "seeded histories of 1-12 file-system operations over 1-3 configured directories (+ anchor): create-by-write, touch, rewrite in place, truncate to zero length, append, tmp+rename inside, rename in from a staging directory, hard link in, rename away, rename to/from a non-Spec name, unlink, chmod, create a missing (nested) directory, remove a directory with its content, recreate it (also back to back); valid and invalid content; pacing per step in {immediately, after yield, after logical quiescence, with the watcher goroutine held so that further operations pile up behind it, from inside the constructor's own directory scan, from inside a refresh's directory scan (scan.beforeRead hook) so that the change lands after its entry was passed}; observed through ListDevices/GetDevice/GetErrors/InjectDevices only (never Refresh()); oracle: after quiescence, within two rounds of queries, devices, definitions and files in error equal those of a fresh manual cache on the final contents; distinct_nontrivial = distinct (operation-kind sequence, pacing sequence) whose final state differs from the initial one"
 	c.Assume("inotify delivers the events of one instance in order and the watcher goroutine handles one event completely before the next (quiescence by sentinel)", "Spec-named symbolic links are created, replaced and removed like files but never written through (a write through a link changes a file outside the directory); bind mounts and symbolic links as configured directories are outside the listed change kinds", "convergence is checked at history end, not at every instant")
+	// auto-refresh caches that could not get a watcher when they were created (no
+	// descriptor to be had): every query has to look at the directories itself, for
+	// as long as the cache lives. Created first, while nothing else in this process
+	// opens files (the limit is process-wide)
+	nnw := c.pick(24, 300)
+	nwCaches := make([]*cdi.Cache, nnw)
+	{
+		for i := range nwCaches {
+			must(os.MkdirAll(filepath.Join(c.Scratch, fmt.Sprintf("nowatcher_%d", i), "d"), 0o755))
+		}
+		var old syscall.Rlimit
+		must(syscall.Getrlimit(syscall.RLIMIT_NOFILE, &old))
+		lim := old
+		lim.Cur = 0
+		must(syscall.Setrlimit(syscall.RLIMIT_NOFILE, &lim))
+		for i := range nwCaches {
+			nwCaches[i], _ = cdi.NewCache(cdi.WithSpecDirs(filepath.Join(c.Scratch, fmt.Sprintf("nowatcher_%d", i), "d")), cdi.WithAutoRefresh(true))
+		}
+		must(syscall.Setrlimit(syscall.RLIMIT_NOFILE, &old))
+	}
+	c.RunCases("nowatcher", nnw, 4, func(cs *Case) {
+		r := cs.R
+		var i int
+		fmt.Sscanf(cs.Name, "nowatcher:%d", &i)
+		cache := nwCaches[i]
+		root := filepath.Join(c.Scratch, fmt.Sprintf("nowatcher_%d", i))
+		dir := filepath.Join(root, "d")
+		defer os.RemoveAll(root)
+		defer releaseCache(cache)
+		must(os.MkdirAll(dir, 0o755))
+		all := []string{dir}
+		if !watcherMissing(cache) {
+			c.Count("nowatcher_caches_that_have_a_watcher", 1)
+		}
+		w := &c11World{r: r, root: root, staging: filepath.Join(root, "staging"), dirs: all}
+		must(os.MkdirAll(w.staging, 0o755))
+		var history []string
+		for step := 0; step < 3+r.Intn(5); step++ {
+			d := w.do(pickStr(r, "create-by-write", "rewrite-in-place", "unlink", "tmp-rename-inside", "rename-in-from-outside", "create-invalid", "truncate", "rmdir-recreate", "rename-away"))
+			if d == "" {
+				continue
+			}
+			history = append(history, d)
+			fresh, _ := cdi.NewCache(cdi.WithSpecDirs(all...), cdi.WithAutoRefresh(false))
+			want, _ := cacheState(fresh, all)
+			got, _ := cacheState(cache, all)
+			if got != want {
+				got, _ = cacheState(cache, all) // second round of queries
+			}
+			c.Count("changes_seen_through_a_watcherless_cache", 1)
+			if got != want {
+				cs.Violation("no-convergence", map[string]string{"last_op": "watcherless", "observed": "queries"}, fmt.Sprintf("an auto-refresh cache that never got a watcher (created while the process could not open a descriptor) does not answer from the directory contents after: %s\n cache %s\n fresh %s", d, clip(got, 1200), clip(want, 1200)), map[string]any{"history": history, "spec_dir_errors": fmt.Sprint(cache.GetSpecDirErrors())})
+				return
+			}
+		}
+	})
+	c.Floor("changes_seen_through_a_watcherless_cache", 50)
 	c.RunCases("hist", c.pick(700, 12000), 4, func(cs *Case) {
 		r := cs.R
 		root := filepath.Join(c.Scratch, sanitize(cs.Name))
@@ -565,6 +623,59 @@ func checkC11(c *Ctx) {
 		}
 		c.Sample(4, map[string]any{"history": history, "watcher_events": ev, "rounds_of_queries": rounds})
 	})
+	// more events than the kernel queues while the watcher is busy (the queue overflows
+	// and some are lost for good): whatever happens to that burst, the watcher must
+	// still be alive for the next change
+	c.RunNamed([]string{"burst:0"}, 1, func(cs *Case) {
+		root := filepath.Join(c.Scratch, sanitize(cs.Name))
+		anchor, d1 := filepath.Join(root, "anchor"), filepath.Join(root, "d1")
+		must(os.MkdirAll(anchor, 0o755))
+		must(os.MkdirAll(d1, 0o755))
+		defer os.RemoveAll(root)
+		all := []string{anchor, d1}
+		a, err := newAutoCache(root, anchor, all)
+		if err != nil {
+			c.Inconclusive("no-inotify")
+			return
+		}
+		defer a.Close()
+		maxq := 16384
+		if b, err := os.ReadFile("/proc/sys/fs/inotify/max_queued_events"); err == nil {
+			fmt.Sscanf(string(b), "%d", &maxq)
+		}
+		release := a.Hold()
+		content := []byte(`{"cdiVersion":"0.6.0","kind":"vendor.com/burst","devices":[{"name":"d","containerEdits":{"env":["B=1"]}}]}`)
+		n := 0
+		for ; n*4 < maxq+8192; n++ {
+			tmp := filepath.Join(d1, "b.tmp")
+			os.WriteFile(tmp, content, 0o644)
+			os.Rename(tmp, filepath.Join(d1, fmt.Sprintf("b%d.json", n%3)))
+		}
+		release()
+		c.Count("burst_file_operations", n)
+		// let the watcher get through what is left of the burst, then one quiet change
+		for i := 0; i < 3; i++ {
+			a.Quiesce()
+		}
+		must(os.WriteFile(filepath.Join(d1, "after-the-burst.json"), []byte(`{"cdiVersion":"0.6.0","kind":"vendor.com/after","devices":[{"name":"d","containerEdits":{"env":["A=1"]}}]}`), 0o644))
+		if !a.Quiesce() {
+			// no sentinel comes through any more: the watcher is dead or stuck; the
+			// comparison below decides
+			c.Count("burst_quiesce_failed", 1)
+		}
+		fresh, _ := cdi.NewCache(cdi.WithSpecDirs(all...), cdi.WithAutoRefresh(false))
+		want, _ := cacheState(fresh, all)
+		got, _ := cacheState(a.C, all)
+		if got != want {
+			a.Quiesce()
+			got, _ = cacheState(a.C, all)
+		}
+		c.Count("event_bursts_beyond_the_kernel_queue", 1)
+		if got != want {
+			cs.Violation("no-convergence", map[string]string{"last_op": "burst", "observed": "queries"}, fmt.Sprintf("after a burst of %d file operations with the watcher held (kernel queue: %d events) a later, quiet change is not reflected\n cache %s\n fresh %s", n, maxq, clip(got, 1200), clip(want, 1200)), map[string]any{"watcher_events": a.EventCounts()})
+		}
+	})
+	c.Floor("event_bursts_beyond_the_kernel_queue", 1)
 	// a higher-priority directory appears populated (missing at start, or removed and
 	// recreated) and redefines a device the lower one defines too; then the cache is
 	// asked - sometimes by injection only, the way a runtime would
